@@ -233,7 +233,8 @@ def trig_empty(a, rng, di, variant):
 
 def trig_zero(a, rng, di, variant):
     d = a.disks[di]
-    cands = [f for f in files_of(a, d) if not os.path.islink(a.path(d, f)) and os.path.getsize(a.path(d, f)) > 0]
+    cands = [f for f in files_of(a, d) if not os.path.islink(a.path(d, f)) and os.path.getsize(a.path(d, f)) > 0
+             and not os.path.basename(f).startswith(('new', 'f', 'c'))]          # recorded files untouched by add_pending
     f = cands[rng.randrange(len(cands))]
     p = a.path(d, f)
     st = os.stat(p)
@@ -308,7 +309,7 @@ def scenario_sync_trigger(ctx, seed, kind, where, variant, pending, shape):
             o = run_case(ctx, a, paths, 'sync', [], 'refuse', desc, replay)
             cross_check_scan(ctx, o, desc)
             run_case(ctx, a, paths, 'sync', wrong, 'refuse', desc + ' wrong-override', replay)
-            if ctx.tier == 'thorough' or seed % 3 == 0:
+            if kind != 'parity' and (ctx.tier == 'thorough' or seed % 3 == 0):
                 # diff only warns
                 o = run_case(ctx, a, paths, 'diff', [], None, desc + ' diff', replay)
                 if o.rc != 2:
@@ -342,7 +343,7 @@ def scenario_conf(ctx, seed, kind, where, pending, shape):
         orig = open(a.conf).read()
         hook = None
         if kind == 'blocksize':
-            edit_conf(a, lambda ls: [('blocksize %d' % (2 + where)) if l.startswith('blocksize') else l for l in ls])
+            edit_conf(a, lambda ls: [('blocksize %d' % (2 << where)) if l.startswith('blocksize') else l for l in ls])
         elif kind == 'hashsize_recorded':        # content has a 'y' record (8); configuration goes back to the default / 12
             newv = [None, 12, 16][where % 3]
             edit_conf(a, lambda ls: [l for l in ls if not l.startswith('hashsize')] + (['hashsize %d' % newv] if newv else []))
@@ -503,6 +504,7 @@ def scenario_hardlink(ctx, seed):
         # unchanged: file and hardlink both count as equal
         run_case(ctx, a, paths, 'sync', [], 'proceed', 'empty:hardlink unchanged (no trigger expected)', {'seed': seed, 'kind': 'hardlink'})
         os.unlink(a.path('d2', 'a'))
+        a.note_version('d2', 'hl')
         o = run_case(ctx, a, paths, 'sync', [], 'refuse', 'empty:file removed, its hardlink name stays', {'seed': seed, 'kind': 'hardlink'})
         cross_check_scan(ctx, o, 'hardlink')
         run_case(ctx, a, paths, 'sync', ['--force-empty'], 'proceed', 'empty:hardlink override', {'seed': seed, 'kind': 'hardlink'})
